@@ -207,6 +207,8 @@ def build(ctx):
         return be.prove_smt(tm.eq(o.value.get(tm.const(1)), ZERO), list(o.facts) + list(o.pc))
 
     obs.append(Obligation("canary.smt", "CANARY (must be refuted): recovery_factor()[1] == 0", canary, [resv.RF], "SMT", expect=be.REFUTED))
+    if ctx.tier == "thorough":
+        obs.append(lean_obligation(ctx, ['pyvc_sum_ge', 'pyvc_sum_le', 'pyvc_chord_between']))
     return obs
 
 
